@@ -260,7 +260,9 @@ def parse_output_canonical_statement : Prop :=
     * `v` stands in the order of `items` (`InOrder`), its layout offsets are 0;
     * the written stream `OT.toksL 0 (OT.fixL false items)` corresponds token by token to the whole input (`TSim`);
     * it is lexable (`StreamLex`: the hypothesis `hlex` of `save_reload_stable_partial`), and no offset has to be bumped
-      behind a line comment (`OT.fixL false items = items`: every item behind a `//` comment stood on a later line);
+      behind a line comment (`OT.fixL false items = items`: every item behind a `//` comment stood on a later line, and
+      so did the `/end` behind a `//` comment that is the last item of its block; where the last item is no `//` comment
+      the writer's `ends_in_line_comment` says so, `end_offset_kept`);
     * if the position-restricted items stand in position order (`OT.posAll`): `Canon e v items` (hypothesis `hcan`);
     * if moreover the last top-level item is a block: `Writable` (hypothesis `hw`), for the configuration with ANY token
       array `X`.
@@ -444,6 +446,36 @@ theorem save_reload_stable_quiet {e : Env} {lx : LexEnv} (hsp : SpecialSim e) (h
 
 /-- the named obstacles -/
 example (e : Env) (items : List OT) (h : Obstacles e items) : OT.posAll e.code items ∧ LastIsBlock items := ⟨h.pos, h.last⟩
+
+/-- NOT an obstacle: the end offsets. The writer (after the `fix:` commits) writes the `/end` of a block with offset 1
+    instead of 0 if `ends_in_line_comment` holds of the block's text (`OT.fixEo`). For a loaded element this never changes
+    the recorded offset: behind a `//` comment as last item the parser recorded an offset ≥ 1 (`OT.endOk`, from the
+    token lines), and otherwise `ends_in_line_comment` — which is exact on lexable content, `ends_in_line_comment_exact`
+    of Props/C01.lean — answers "no" -/
+theorem end_offset_kept (blk : Bool) (eo : Nat) (fields : List Val) (items : List OT) (hf : ∀ f ∈ fields, FieldLex f)
+    (hw : OT.lexWL items)
+    (he : blk = true → ∀ text off, items.getLast? = some (.cmt text off) → isLineCmt text = true → 1 ≤ eo) :
+    OT.fixEo blk eo fields (OT.fixL false items) = eo :=
+  fixEo_of_endOk blk eo fields items hf hw he
+
+/-- no offset is bumped for loaded items: start offsets (`OT.noBumpL`), end offsets (`OT.endOkL`) -/
+theorem no_offset_bumped (xs : List OT) (alc : Bool) (h : OT.noBumpL alc xs) (hw : OT.lexWL xs) (he : OT.endOkL xs) :
+    OT.fixL alc xs = xs :=
+  fixL_of_noBump xs alc h hw he
+
+def eoCmt : List Char := " /* a\n // b */".toList
+
+/-- the input on which the last-line version of `ends_in_line_comment` fired spuriously (a block whose content ends with
+    the block comment `/* a⏎ // b */` and whose `/end` stands on the same line): the exact scan answers "no", the `/end`
+    recorded with offset 0 is written with offset 0, nothing is bumped -/
+theorem block_comment_tail_not_bumped :
+    OT.endsLC [] [.cmt eoCmt 0] = false ∧
+    OT.fixL false [.node 0 ['B'] true 0 0 0 [] [.cmt eoCmt 0]] = [.node 0 ['B'] true 0 0 0 [] [.cmt eoCmt 0]] ∧
+    renderToks (OT.toksL 0 [.node 0 ['B'] true 0 0 0 [] [.cmt eoCmt 0]]) = " /begin B /* a\n // b */ /end B".toList := by
+  have h : OT.endsLC [] [.cmt eoCmt 0] = false := by decide +kernel
+  have h1 : isLineCommentText eoCmt = false := by decide +kernel
+  refine ⟨h, ?_, by decide +kernel⟩
+  simp [OT.fixL, OT.fixEo, bumpOff, h, h1]
 
 /-- `Obstacles.pos` is needed: finding `reserved-order` (`R 2 R 1` is written as ` R 1 R 2`; the significant tokens
     change their order and the reloaded model differs) — `reserved_order_model_differs` of Props/C01.lean -/
